@@ -41,6 +41,8 @@ def cases(tier, seed):
     if tier == 'thorough':
         out.insert(0, pool.ambient_case(PID))
     for prog in progs.cat():
+        if {'fancy', 'nonunique'} & prog.tags:
+            continue
         for rep in range(1 if tier == 'quick' else 3):
             out.append({'kind': 'program', 'seed': case_seed('C12', seed, prog.name, rep), 'params': {'prog': prog.name, 'P': 1 + rep % 2, 'D': [3, 2, 5][rep % 3]}})
     for i in range(80 if tier == 'quick' else 1500):
